@@ -1220,6 +1220,10 @@ fn c12_bias(r: &mut Rng, d: &mut TreeDesc) {
         }
     };
     d.map_styles(&mut |s, _| {
+        // compressible replaced elements have their own size-cap site in the grid algorithm (grid_item.rs)
+        if r.chance(1, 6) {
+            s.item_is_replaced = true;
+        }
         if r.chance(1, 2) {
             s.box_sizing = BoxSizing::ContentBox;
             s.aspect_ratio = None;
@@ -1415,6 +1419,25 @@ pub fn run_c12(cfg: &Cfg, out: &mut Out) -> String {
         };
         let all: Vec<usize> = (0..a.count()).collect();
         c12_one(out, &a, d200, &all);
+    }
+    idx += 1;
+    // fixed: the witness of the repaired defect — a compressible replaced grid item with a content-box max-width
+    if cfg.wants(idx) {
+        out.begin_case(idx, "fixed:replaced-grid-item-content-box-max-width");
+        let mut g = Style::DEFAULT;
+        g.display = Display::Grid;
+        g.size.width = Dimension::length(100.0);
+        g.grid_template_columns = vec![auto()];
+        let mut it = Style::DEFAULT;
+        it.item_is_replaced = true;
+        it.box_sizing = BoxSizing::ContentBox;
+        it.padding.left = LengthPercentage::length(5.0);
+        it.padding.right = LengthPercentage::length(5.0);
+        it.border.left = LengthPercentage::length(1.0);
+        it.border.right = LengthPercentage::length(1.0);
+        it.max_size.width = Dimension::length(100.0);
+        let a = TreeDesc { style: g, ctx: None, children: vec![TreeDesc { style: it, ctx: Some(Ctx::Fixed(200.0, 10.0)), children: vec![] }] };
+        c12_one(out, &a, Size { width: AvailableSpace::Definite(100.0), height: AvailableSpace::MaxContent }, &[1]);
     }
     idx += 1;
     let n = cfg.n(8000, 120_000);
